@@ -72,6 +72,7 @@ def _case(draw):
             # the additions themselves may be evaluated inside a units context
             "u_add": draw(st.sampled_from([None, None, "1/cm", "THz", "eV"])),
             "value_tail": draw(st.booleans()) if fam == "cf" else False,
+            "measure_leaves": draw(st.booleans()),
             "t_mismatch": draw(st.sampled_from([None, None, None, 0, 1])) if fam == "cf" and n >= 2 else None}
 
 
@@ -137,7 +138,11 @@ def check_case(case, ctx):
     def ev(node):
         """returns (object, set of leaf indices, is_composite)"""
         if isinstance(node, int):
-            return make(node), [node], False
+            leaf = make(node)
+            if case.get("measure_leaves"):
+                # the component has been looked at before it enters a sum
+                leaf.measure_reorganization_energy()
+            return leaf, [node], False
         lo, li, lc = ev(node["l"])
         ro, ri, rc = ev(node["r"])
         if lc:
@@ -180,6 +185,16 @@ def check_case(case, ctx):
         wlam += 0.0005
         ctx.label("value-tail")
     ctx.mark_nontrivial(n >= 3 and len(types) >= 2 and state["composite_left"])
+    if not case["value_tail"]:
+        # the reorganisation energy recovered from the data is a linear functional of the data (spline integral): for
+        # the sum it equals the sum over the components, whether or not operands were measured before they were added
+        def measured():
+            return float(total.measure_reorganization_energy()), [float(x.measure_reorganization_energy()) for x in singles]
+        ok, mm = guarded(ctx, "measure", measured, fam + "/sum")
+        if ok:
+            wm = sum(mm[1][i] for i in leaves) * (2 if case["self_add"] else 1)
+            ctx.close("measured-reorganisation-energy/additive", mm[0], wm, rtol=1e-6, atol=1e-12,
+                      where=fam + ("/leaves-measured-before" if case.get("measure_leaves") else ""), n=n)
     where = fam + "/" + "+".join(types) + ("/in-context" if case.get("u_add") else "")
     sc = max(1e-30, float(numpy.max(numpy.abs(want))))
     ctx.close("sum-data", numpy.array(total.data), want, rtol=1e-9, scale=sc, where=where, n=n)
